@@ -63,6 +63,7 @@ func (s *zzSrc) Read(p []byte) (int, error) {
 	if s.frag == 2 {
 		k = 1
 	} else if s.frag == 1 && k > 1 && s.splits > 0 {
+		k = vrt.Concrete(k)
 		c := vrt.Choose(k) + 1
 		if c < k {
 			s.splits--
